@@ -120,6 +120,7 @@ _BUILTINS = {
     "next": next,
     "bytes": bytes,
     "bytearray": bytearray,
+    "isinstance": isinstance,
 }
 
 _SAFE_METHODS = {
@@ -216,6 +217,8 @@ class Interp:
             v = self.expr(s.value, env)
             for t in s.targets:
                 self.assign(t, v, env)
+        elif isinstance(s, (ast.Import, ast.ImportFrom)):
+            return  # imported names are resolved by the name hook (or are free names when used)
         elif isinstance(s, ast.AnnAssign):
             if s.value is not None:
                 self.assign(s.target, self.expr(s.value, env), env)
